@@ -21,6 +21,9 @@ pub enum Error {
     /// Neither an `mp-filter:` nor a `filter:` attribute was found in a `filter-set` object.
     #[error("no mp-filter or filter attribute found in filter-set object {0}")]
     FindFilterAttribute(String),
+    /// Too many `filter-set` names were resolved during one evaluation.
+    #[error("too many filter-set references while resolving {0} (probably a reference loop)")]
+    FilterSetLoop(String),
     /// An unexpected RPSL object type was received.
     #[error("unexpected RPSL object {0}")]
     RpslObjectClass(RpslObject),
